@@ -36,3 +36,25 @@ Proof. exact frame_wrong_key. Qed.
 Theorem c04_no_credentials : forall sha256 sha512 hmac256 kdf outer_dec decompress file e r,
   decrypt4 sha256 sha512 hmac256 kdf outer_dec decompress file (Err e) <> Ok r.
 Proof. exact decrypt4_no_credentials. Qed.
+
+(* KDBX 3.1 (model format/Kdbx3.v): credentials whose derived key does not decrypt the payload to
+   something beginning with the stream start bytes are answered with the key error *)
+From KP Require Import Kdbx3 Kdbx3Proofs.
+Theorem c04_kdbx3_wrong_key_is_key_error :
+  forall (sha256 : bytes -> bytes) (kdf : kdfcfg -> bytes -> bytes -> Kdbx4.res bytes)
+         (outer_enc outer_dec : ocipher -> bytes -> bytes -> bytes -> Kdbx4.res bytes)
+         (decompress : compression -> bytes -> Kdbx4.res bytes)
+         minor (fields : list (N * bytes)) end_buf (h : header3) (els blocks : list bytes) (file : bytes)
+         (e' : list bytes) (t' p : bytes),
+  (minor < 2 ^ 16)%N ->
+  Forall field_ok fields ->
+  (N.of_nat (length end_buf) < 2 ^ 16)%N ->
+  fold_left apply_field fields acc3_empty = acc_of_header3 h ->
+  length (h3_start h) = 32%nat ->
+  frame3 sha256 kdf outer_enc minor fields end_buf h els blocks = Ok file ->
+  kdf (KAes (h3_rounds h)) (h3_transform_seed h) (sha256 (concat e')) = Ok t' ->
+  outer_dec (h3_cipher h) (sha256 (h3_master_seed h ++ t')) (h3_iv h)
+            (drop (length (header_dump3 minor fields end_buf)) file) = Ok p ->
+  take 32 p <> h3_start h ->
+  decrypt3 sha256 kdf outer_dec decompress file (Ok e') = Err EIncorrectKey.
+Proof. exact frame3_wrong_start. Qed.
